@@ -357,6 +357,9 @@ def run(c, facts, tier):
         fr = kw.flatten_rest(g, a.rest)
         if not any(x["keep"] for x in fr):
             continue
+        # a leading look-ahead (the keyword must end at a word boundary) consumes nothing and is rightly outside the cut
+        while fr and not fr[0]["keep"] and g.open(fr[0]["n"])["t"] == "peek":
+            fr = fr[1:]
         lastkept = max(i for i, x in enumerate(fr) if x["keep"])
         ok = all(x["cut"] for x in fr[: lastkept + 1])
         c.ob("C05.cut", a.site, a.lit, ok, "blank and argument after %r are %s" % (a.lit, "under cut_err" if ok else "not all under cut_err: a bad argument can fall through to another alternative"))
